@@ -1564,9 +1564,20 @@ func genCase(r *prng.R, profile string) Case {
 			}
 		}
 		ni := r.Range(0, 2)
+		ioChild := 0
+		// common profile, now and then: an IO root derived from the PREVIOUS version's finalized IO root
+		// (sharing its nodes) that is then finalized: badger accepts it and must keep it readable when
+		// the previous version is pruned; pathbadger must reject the batch (IO roots have no children)
+		wantIOChild := profile == "common" && !compaction && finIO != 0 && g.conts[finIO] != nil && len(g.conts[finIO]) > 0 && r.Chance(14)
+		if wantIOChild && ni == 0 {
+			ni = 1
+		}
 		for j := 0; j < ni; j++ {
 			old := 0
 			if profile == "badger" && finIO != 0 && r.Chance(40) {
+				old = finIO
+			}
+			if wantIOChild && j == 0 {
 				old = finIO
 			}
 			ws := g.writes(g.conts[old], removed)
@@ -1577,6 +1588,9 @@ func genCase(r *prng.R, profile string) Case {
 				ws = append(ws, Write{Key: 8, Val: r.Range(1, 2)})
 			}
 			id := g.commit(ver, 2, old, ws)
+			if wantIOChild && j == 0 {
+				ioChild = id
+			}
 			candI = append(candI, id)
 			if profile == "badger" && r.Chance(30) {
 				id2 := g.commit(ver, 2, id, g.writes(g.conts[id], removed)) // empty -> i -> io
@@ -1607,6 +1621,13 @@ func genCase(r *prng.R, profile string) Case {
 		finIO = 0
 		if len(candI) > 0 && r.Chance(85) {
 			finIO = candI[r.Intn(len(candI))]
+			fin = append(fin, finIO)
+		}
+		if ioChild != 0 && finIO != ioChild {
+			if finIO != 0 {
+				fin = fin[:len(fin)-1]
+			}
+			finIO = ioChild
 			fin = append(fin, finIO)
 		}
 		// pipelining: candidates of the next version derived from the root that is about to be
